@@ -140,3 +140,108 @@ TemperatureCalculator:
     path = os.path.join(outdir, "run.param")
     open(path, "w").write(p)
     return path
+
+
+def ion_param(outdir, ncell=(16, 16, 16), nsub=(2, 2, 2), periodic=(False, False, False), nphoton=10000, niter=2,
+              discrete=True, continuous=False, diffuse=False, copy_level=1, density="100. cm^-3", seed=42,
+              reem_prob=0.364, nbuffers=4000, ntasks=40000, extra="", xh=2.0e-4, luminosity=1.0e46):
+    """Parameter file for the task-based photoionization simulation."""
+    os.makedirs(outdir, exist_ok=True)
+    bl = lambda v: "true" if v else "false"
+    rhd = open(os.path.join(os.path.dirname(os.path.abspath(__file__)), "rhdparams.py")).read()
+    p = """SimulationBox:
+  anchor: [-5. pc, -5. pc, -5. pc]
+  sides: [10. pc, 10. pc, 10. pc]
+  periodicity: [%(p0)s, %(p1)s, %(p2)s]
+
+DensityGrid:
+  type: Cartesian
+  periodicity: [%(p0)s, %(p1)s, %(p2)s]
+  number of cells: [%(nc0)d, %(nc1)d, %(nc2)d]
+
+DensitySubGridCreator:
+  number of subgrids: [%(ns0)d, %(ns1)d, %(ns2)d]
+  periodicity: [%(p0)s, %(p1)s, %(p2)s]
+
+DensityFunction:
+  type: Homogeneous
+  density: %(density)s
+  temperature: 8000. K
+  neutral fraction H: %(xh)r
+
+Abundances:
+  helium: 0.
+
+TemperatureCalculator:
+  do temperature calculation: false
+
+%(dsrc)s
+PhotonSourceSpectrum:
+  type: Monochromatic
+  frequency: 3.28847e+15 Hz
+  total flux: -1 m^-2 s^-1
+
+%(csrc)s
+%(diff)s
+TaskBasedIonizationSimulation:
+  number of photons: %(nphoton)d
+  number of iterations: %(niter)d
+  source copy level: %(copy)d
+  diffuse field: %(diffuse)s
+  number of buffers: %(nbuffers)d
+  number of tasks: %(ntasks)d
+  queue size per thread: 5000
+  shared queue size: 20000
+  random seed: %(seed)d
+  output folder: %(dir)s
+%(extra)s
+DensityGridWriter:
+  type: AsciiFile
+  prefix: snap_
+  padding: 3
+
+RecombinationRates:
+  type: FixedValue
+  hydrogen_1: 4.e-13 cm^3 s^-1
+  helium_1: 0. m^3 s^-1
+  carbon_2: 0. m^3 s^-1
+  carbon_3: 0. m^3 s^-1
+  nitrogen_1: 0. m^3 s^-1
+  nitrogen_2: 0. m^3 s^-1
+  nitrogen_3: 0. m^3 s^-1
+  oxygen_1: 0. m^3 s^-1
+  oxygen_2: 0. m^3 s^-1
+  neon_1: 0. m^3 s^-1
+  neon_2: 0. m^3 s^-1
+  sulphur_2: 0. m^3 s^-1
+  sulphur_3: 0. m^3 s^-1
+  sulphur_4: 0. m^3 s^-1
+
+CrossSections:
+  type: FixedValue
+  hydrogen_0: 6.3e-18 cm^2
+  helium_0: 0. m^2
+  carbon_1: 0. m^2
+  carbon_2: 0. m^2
+  nitrogen_0: 0. m^2
+  nitrogen_1: 0. m^2
+  nitrogen_2: 0. m^2
+  oxygen_0: 0. m^2
+  oxygen_1: 0. m^2
+  neon_0: 0. m^2
+  neon_1: 0. m^2
+  sulphur_1: 0. m^2
+  sulphur_2: 0. m^2
+  sulphur_3: 0. m^2
+""" % dict(p0=bl(periodic[0]), p1=bl(periodic[1]), p2=bl(periodic[2]), nc0=ncell[0], nc1=ncell[1], nc2=ncell[2],
+           ns0=nsub[0], ns1=nsub[1], ns2=nsub[2], density=density, xh=xh, nphoton=nphoton, niter=niter, copy=copy_level,
+           diffuse=bl(diffuse), nbuffers=nbuffers, ntasks=ntasks, seed=seed, dir=outdir, extra=extra,
+           dsrc=("PhotonSourceDistribution:\n  type: SingleStar\n  position: [0.3 pc, -0.2 pc, 0.1 pc]\n"
+                 "  luminosity: %r s^-1\n" % luminosity) if discrete else "PhotonSourceDistribution:\n  type: None\n",
+           csrc=("ContinuousPhotonSource:\n  type: Isotropic\n\nContinuousPhotonSourceSpectrum:\n  type: Monochromatic\n"
+                 "  frequency: 3.28847e+15 Hz\n  total flux: 1.e8 m^-2 s^-1\n") if continuous else "",
+           diff=("DiffuseReemissionHandler:\n  type: FixedValue\n  reemission probability: %r\n"
+                 "  reemission frequency: 13.7 eV\n" % reem_prob) if diffuse else "")
+    path = os.path.join(outdir, "ion.param")
+    open(path, "w").write(p)
+    return path
